@@ -368,6 +368,9 @@ def check_c12(tier):
     # the decoder sees the stream only through Read calls: every fragmentation / end-of-input form / failure after k bytes (ReaderFaults.tla)
     from rf_checks import reader_faults
     reader_faults(rep, "C12", ["cbor"], tier)
+    # calls on independent objects running in parallel do not interfere (Trace_Purity, race detector)
+    from purity_checks import parallel_cold
+    parallel_cold(rep, "C12", "cbor")
     return rep.finish()
 
 
